@@ -213,7 +213,11 @@ options:
                 }
             }
             Short('j') => args.options.parallelism = parser.value()?.parse()?,
-            Short('k') => args.options.failures_left = Some(parser.value()?.parse()?),
+            Short('k') => {
+                // As in Ninja, 0 means no limit.
+                let n: usize = parser.value()?.parse()?;
+                args.options.failures_left = if n == 0 { None } else { Some(n) };
+            }
             Short('v') => args.verbose = true,
 
             Long("version") => {
